@@ -22,13 +22,17 @@ Section Rename.
   | rv_enum x l : ren_value (VEnum x l) (VEnum x l)
   | rv_list vs vs' l : Forall2 ren_value vs vs' -> ren_value (VList vs l) (VList vs' l)
   | rv_obj fs fs' l :
-      Forall2 (fun f f' => ren_value (snd (fst f)) (snd (fst f'))) fs fs' ->
+      Forall2 (fun f f' => n_val (fst (fst f')) = n_val (fst (fst f))
+                           /\ ren_value (snd (fst f)) (snd (fst f'))) fs fs' ->
       ren_value (VObject fs l) (VObject fs' l).
 
+  (* argument, directive and input field names are not renamed *)
   Definition ren_args (a a' : list argument) : Prop :=
-    Forall2 (fun x x' => ren_value (a_val x) (a_val x')) a a'.
+    Forall2 (fun x x' => n_val (a_name x') = n_val (a_name x) /\ ren_value (a_val x) (a_val x')) a a'.
   Definition ren_dirs (d d' : list directive) : Prop :=
-    Forall2 (fun x x' => ren_args (d_args x) (d_args x')) d d'.
+    Forall2 (fun x x' => n_val (d_name x') = n_val (d_name x) /\ ren_args (d_args x) (d_args x')) d d'.
+  Definition ren_default (a b : option value) : Prop :=
+    match a, b with Some v, Some v' => ren_value v v' | None, None => True | _, _ => False end.
 
   Inductive ren_sel : selection -> selection -> Prop :=
   | rs_field a a' n args args' dirs dirs' sl sub sub' l :
@@ -42,7 +46,8 @@ Section Rename.
 
   Inductive ren_def : definition -> definition -> Prop :=
   | rd_op k n vds vds' dirs dirs' ssl sels sels' l :
-      Forall2 (fun vd vd' => n_val (vd_var vd') = sigma (n_val (vd_var vd))) vds vds' ->
+      Forall2 (fun vd vd' => n_val (vd_var vd') = sigma (n_val (vd_var vd)) /\ vd_type vd' = vd_type vd
+                             /\ ren_default (vd_default vd) (vd_default vd')) vds vds' ->
       ren_dirs dirs dirs' -> Forall2 ren_sel sels sels' ->
       ren_def (DOperation k n vds dirs ssl sels l) (DOperation k n vds' dirs' ssl sels' l)
   | rd_frag n n' vds tc dirs dirs' ssl sels sels' l :
@@ -85,9 +90,10 @@ Section Rename.
         eapply vh_list; eassumption.
     - rewrite Forall_forall in IH.
       match goal with HF : Forall2 _ fs _ |- _ =>
-        pose proof (list_image sigma (fun f f' => ren_value (snd (fst f)) (snd (fst f')))
+        pose proof (list_image sigma (fun f f' => n_val (fst (fst f')) = n_val (fst (fst f))
+                                                  /\ ren_value (snd (fst f)) (snd (fst f')))
                       (fun f y => value_has_var (snd (fst f)) y) fs _
-                      (fun f Hf f' Hr' g => IH f Hf (snd (fst f')) Hr' g) HF y) as Himg end.
+                      (fun f Hf f' Hr' g => IH f Hf (snd (fst f')) (proj2 Hr') g) HF y) as Himg end.
       split.
       + intros H. inversion H; subst.
         destruct (proj1 Himg) as [x [-> [[[n0 v0] l0] [Hv0 Hp]]]]; [eexists; split; [eassumption|simpl; assumption]|].
@@ -101,16 +107,18 @@ Section Rename.
     forall y, args_have_var a' y <-> exists x, y = sigma x /\ args_have_var a x.
   Proof.
     intros HF y. unfold args_have_var.
-    apply (list_image sigma (fun x x' => ren_value (a_val x) (a_val x')) (fun x y => value_has_var (a_val x) y) a a');
-      [|exact HF]. intros x _ x' Hr g. apply ren_value_vars. exact Hr.
+    apply (list_image sigma (fun x x' => n_val (a_name x') = n_val (a_name x) /\ ren_value (a_val x) (a_val x'))
+                      (fun x y => value_has_var (a_val x) y) a a');
+      [|exact HF]. intros x _ x' Hr g. apply ren_value_vars. exact (proj2 Hr).
   Qed.
 
   Lemma ren_dirs_vars d d' : ren_dirs d d' ->
     forall y, dirs_have_var d' y <-> exists x, y = sigma x /\ dirs_have_var d x.
   Proof.
     intros HF y. unfold dirs_have_var.
-    apply (list_image sigma (fun x x' => ren_args (d_args x) (d_args x')) (fun x y => args_have_var (d_args x) y) d d');
-      [|exact HF]. intros x _ x' Hr g. apply ren_args_vars. exact Hr.
+    apply (list_image sigma (fun x x' => n_val (d_name x') = n_val (d_name x) /\ ren_args (d_args x) (d_args x'))
+                      (fun x y => args_have_var (d_args x) y) d d');
+      [|exact HF]. intros x _ x' Hr g. apply ren_args_vars. exact (proj2 Hr).
   Qed.
 
   Lemma ex_or (A B : str -> Prop) (r : str -> str) y :
@@ -211,9 +219,9 @@ Section Rename.
       + intros y. unfold def_has_var. simpl. rewrite (ren_dirs_vars _ _ HD y), (ren_sels_vars _ _ HS y).
         apply ex_or.
       + intros y. split.
-        * intros [vd' [Hvd' E]]. destruct (Forall2_In_r _ _ _ _ HV Hvd') as [vd [Hvd Hr]].
+        * intros [vd' [Hvd' E]]. destruct (Forall2_In_r _ _ _ _ HV Hvd') as [vd [Hvd [Hr _]]].
           exists (n_val (vd_var vd)). split; [congruence|eauto].
-        * intros [v [-> [vd [Hvd E]]]]. destruct (Forall2_In_l _ _ _ _ HV Hvd) as [vd' [Hvd' Hr]].
+        * intros [v [-> [vd [Hvd E]]]]. destruct (Forall2_In_l _ _ _ _ HV Hvd) as [vd' [Hvd' [Hr _]]].
           exists vd'. split; [exact Hvd'|congruence].
     - split; [reflexivity|]. split; [tauto|]. split; [rewrite HN; reflexivity|]. split; [apply ren_sels_spread; exact HS|].
       split.
